@@ -110,7 +110,7 @@ func caseOptions(r *common.Run, n int) raftsim.Options {
 	case "C17":
 		o.Steps = 1200 + rng.Intn(2000)
 		o.WPartition, o.WCrash, o.WTransfer = 2, 2, 2
-	case "C03":
+	case "C03", "C04":
 		o.WCrash, o.WTransfer, o.WPartition = 2, 2, 2
 	}
 	return o
@@ -123,7 +123,7 @@ func nontrivial(prop string, res raftsim.Result) bool {
 		return f["overlapping_writes"] && f["read_overlaps_write"] && res.Leaders > 1
 	case "C02":
 		return f["leader_change_after_commit"] && f["truncation"]
-	case "C03":
+	case "C03", "C04":
 		return res.Leaders > 1
 	case "C06":
 		return f["read_raced_leader_change"]
@@ -147,7 +147,7 @@ func main() {
 	_ = logutil.ReplicaID
 	r := common.Start("raftsim")
 	sk := &sink{r: r, seen: map[string]int{}}
-	r.SetRule("each case = one simulated shard execution (PRNG-chosen shape: 1-5 voters, optional non-voting/witness joins, PreVote, CheckQuorum, ordered config change; 2500-5000 scheduler actions: tick/step/apply/deliver/drop/duplicate/propose/read/config change/transfer/snapshot+compaction/crash at step-internal points/restart/partitions) followed by a fair healing phase; non-trivial per property: C01 overlapping writes + read overlapping a write + >1 leader; C02 leader change after a commit + conflict truncation; C03/C17 >1 leader term; C06 a read that raced a leader change; C07 applied config change + >1 leader; C18 applied config change in a mixed-role shard; distinct by hash of the (term, leader) and config-change event sequence")
+	r.SetRule("each case = one simulated shard execution (PRNG-chosen shape: 1-5 voters, optional non-voting/witness joins, PreVote, CheckQuorum, ordered config change; 2500-5000 scheduler actions: tick/step/apply/deliver/drop/duplicate/propose/read/config change/transfer/snapshot+compaction/crash at step-internal points/restart/partitions) followed by a fair healing phase; non-trivial per property: C01 overlapping writes + read overlapping a write + >1 leader; C02 leader change after a commit + conflict truncation; C03/C04/C17 >1 leader term; C06 a read that raced a leader change; C07 applied config change + >1 leader; C18 applied config change in a mixed-role shard; distinct by hash of the (term, leader) and config-change event sequence")
 	r.Assume("the mini-node re-implements the glue of node.go/engine.go around the real raft.Peer, LogReader and rsm.StateMachine; a crash loses everything not handed to SaveRaftState/SaveSnapshots; snapshot images travel with InstallSnapshot messages")
 	if r.Replay != "" {
 		os.Exit(replay(r, sk))
